@@ -764,10 +764,14 @@ class CallMixin:
         tab = self.enum_tables()[cls]
         if v.k == 'enum' and v.t[0] == cls:
             return v
+        # Enum._missing_ (custom look-up of values that are not members): a class that defines it may return a member for ANY value
+        has_missing = any(c_ in self.src.classes and '_missing_' in self.src.classes[c_].methods for c_ in self.src.mro(cls))
         if v.k == 'str' and len(tab) > 8:
             # large string enumerations: membership abstracted by a predicate over the member VALUE table of the real source
             if self.branch(self.ufunc('enum_member_' + cls, SEQ, BOOL)(v.t)):
                 return SV('opq', self.ufunc('enum_of_' + cls, SEQ, OPQ)(v.t), 'enummember')
+            if has_missing and self.st.oracle.choose(2) == 1:
+                return SV('opq', self.sym('member_from_missing_hook', OPQ), 'enummember')
             raise PyRaise('ValueError', 'not an enum value')
         for n, ent in tab.items():
             ev = ent['value']
